@@ -1,5 +1,11 @@
 From Gv Require Import lib.Bytes lib.Json lib.Gql C06.Num C06.Model C06.Spec C06.ProofsBase.
 From Coq Require Import List NArith Bool Lia.
-Goal forall d S t', coercible_j d S JNull (TNonNull t') = false.
-intros. simpl. Show.
+Import ListNotations.
+Goal forall (st1: vstate) (A B C: bool) k (v: json),
+  (st1 = None <-> None = None (A:=verr) /\ C = true) -> ((C = true /\ True) <-> (A = true /\ B = true)) ->
+  (match v with JNull => mk k [] (EOneOfNull k k) | _ => st1 end = None <-> None = None (A:=verr) /\ A && B && negb (jnull v) = true).
+Proof.
+  intros st1 A B C k v Hst Hobj.
+  destruct v; simpl.
+  Show.
 Abort.
